@@ -842,31 +842,36 @@ def concatB (args : List Val) : M Val := do
   let r0 ← newBacking []
   concatGo args (.list r0 0)
 
-/-- the parameter loop of function.Run: position `i` of the argument list, else the default (evaluated by
+/-- one parameter of function.Run: position `i` of the argument list, else the default (evaluated by
     `evalDefault`: the evaluator passes evaluation in the CALLER's scope), else null; written with SetValue
     into the frame, which has no parent yet -/
+def bindParamNode (evalDefault : Node → M Val) (fvs : Nat) (p : Node) (i : Nat) (args : List Val) : M Unit := do
+  if p.name == "identifier" then
+    setValue fvs (← tokOf p).val (args.getD i Val.null)
+  else if p.name == "preset" then
+    let nameTok ← tokOf (← child p 0)
+    let v ← (if i < args.length then pure (args.getD i Val.null) else do let d ← child p 1; evalDefault d)
+    setValue fvs nameTok.val v
+
+/-- the parameter loop of function.Run -/
 def bindParamNodes (evalDefault : Node → M Val) (fvs : Nat) : List (Option Node) → Nat → List Val → M Unit
   | [], _, _ => pure ()
   | none :: _, _, _ => throw Sig.panic
   | some p :: ps, i, args => do
-    if p.name == "identifier" then
-      setValue fvs (← tokOf p).val (args.getD i Val.null)
-    else if p.name == "preset" then
-      let nameTok ← tokOf (← child p 0)
-      let v ← if i < args.length then pure (args.getD i Val.null) else evalDefault (← child p 1)
-      setValue fvs nameTok.val v
+    bindParamNode evalDefault fvs p i args
     bindParamNodes evalDefault fvs ps (i + 1) args
+
+/-- `if f.this != nil { fvs.SetValue("this", f.this) }` (same for super) -/
+def bindContext (fvs : Nat) (name : List Nat) : Option Val → M Unit
+  | some t => setValue fvs name t
+  | none => pure ()
 
 /-- function.Run up to the evaluation of the body: a NEW root scope, `this` / `super` (if bound), the
     parameters, and only then the link to the declaration scope; returns the frame -/
 def buildFrame (evalDefault : Node → M Val) (fr : FuncRec) (params : List (Option Node)) (args : List Val) : M Nat := do
   let fvs ← newScope s!"func: {fr.name}"
-  match fr.this with
-  | some t => setValue fvs thisName t
-  | none => pure ()
-  match fr.super with
-  | some sl => setValue fvs superName sl
-  | none => pure ()
+  bindContext fvs thisName fr.this
+  bindContext fvs superName fr.super
   bindParamNodes evalDefault fvs params 0 args
   let s ← getScope fvs
   setScope fvs { s with parent := some fr.declScope }
